@@ -222,7 +222,27 @@ def check_write(ctx, rep, cls_qual):
                "`while %s:`" % dat if okl else
                "the OS send is not inside a `while <remaining data>` loop: a partial send truncates the packet", ctx.loc(sc))
         st = A.enclosing(sc, ast.stmt)
-        nvar = st.targets[0].id if isinstance(st, ast.Assign) and isinstance(st.targets[0], ast.Name) else None
+        nvar = st.targets[0].id if isinstance(st, ast.Assign) and isinstance(st.targets[0], ast.Name) and st.value is sc else None
+        direct = isinstance(st, ast.Assign) and isinstance(st.targets[0], ast.Name) and st.targets[0].id == dat and \
+            isinstance(st.value, ast.Subscript) and A.src(st.value.value) == dat and isinstance(st.value.slice, ast.Slice) and \
+            st.value.slice.lower is sc and st.value.slice.upper is None and st.value.slice.step is None
+        if direct:
+            # `data = data[send(chunk):]`: the accepted count advances the data in the same statement
+            rep.ob("R05.2", "%s.write: the number of bytes the OS accepted is kept" % short, True,
+                   "`%s`" % A.norm(st), ctx.loc(sc))
+            chunk = sc.args[-1] if sc.args else None
+            okc = (isinstance(chunk, ast.Name) and chunk.id == dat) or (
+                isinstance(chunk, ast.Subscript) and isinstance(chunk.value, ast.Name) and chunk.value.id == dat
+                and isinstance(chunk.slice, ast.Slice) and chunk.slice.lower is None and chunk.slice.step is None)
+            rep.ob("R05.2", "%s.write: what is written is a prefix of the remaining data" % short, bool(okc),
+                   "chunk `%s`" % A.src(chunk) if okc else "chunk `%s` is not a prefix of the remaining data" % A.src(chunk), ctx.loc(sc))
+            rep.ob("R05.2", "%s.write: the remaining data advances by exactly the bytes accepted" % short, True,
+                   "`%s`" % A.norm(st), ctx.loc(st))
+            jumps = [n for n in A.walk(loop) if isinstance(n, (ast.Break, ast.Return))] if loop is not None else []
+            rep.ob("R05.2", "%s.write: the loop ends only when everything was written" % short, not jumps,
+                   "no break/return in the write loop" if not jumps else "`%s` leaves the write loop early" % A.norm(jumps[0]),
+                   ctx.loc(jumps[0]) if jumps else ctx.loc(loop), kind="site")
+            continue
         rep.ob("R05.2", "%s.write: the number of bytes the OS accepted is kept" % short, nvar is not None,
                "`%s`" % A.norm(st) if nvar else "the return value of the OS send is ignored (assumes a complete write)",
                ctx.loc(sc))
